@@ -84,4 +84,39 @@ structure InvL (N : Nat) (s : State) : Prop where
                  (s.nodes c).role = .candidate → (s.nodes c).term = t →
                  li = (s.nodes c).log.length - 1 ∧ lt = lastTerm (s.nodes c).log
 
+/-- `applied ≤ commit` on every node. -/
+def InvA (s : State) : Prop := ∀ n, (s.nodes n).applied ≤ (s.nodes n).commit
+
+structure InvS (N : Nat) (s : State) : Prop where
+  cm_lt      : ∀ n, (s.nodes n).commit < (s.nodes n).log.length
+  voted_cand : ∀ t v c, s.g.voted t v = some c → t ≤ (s.nodes c).term
+  noldr_acked : ∀ t n, s.g.termLog t = [] → s.g.acked t n = 0
+  ack_msg    : ∀ t f l idx, Msg.ack t f l idx ∈ s.msgs → idx ≤ s.g.acked t f
+  match_le   : ∀ n f, (s.nodes n).role = .leader → (s.nodes n).matchIdx f ≤ s.g.acked (s.nodes n).term f
+  ldr_acked  : ∀ n, (s.nodes n).role = .leader →
+                 s.g.acked (s.nodes n).term n = (s.nodes n).log.length - 1
+  acked_lt   : ∀ t n, 0 < s.g.acked t n → s.g.acked t n < (s.g.termLog t).length
+  acked_term : ∀ t n, 0 < s.g.acked t n → t ≤ (s.nodes n).term
+  acked_cur  : ∀ n, 0 < s.g.acked (s.nodes n).term n →
+                 Agree (s.nodes n).log (s.g.termLog (s.nodes n).term) (s.g.acked (s.nodes n).term n)
+  Y          : ∀ t t' i, t < t' → s.g.termLog t' ≠ [] → OwnPos s.g t i →
+                 Agree (s.g.termLog t') (s.g.termLog t) i ∨ Blocked N s t i
+  Z          : ∀ n t i, OwnPos s.g t i → i ≤ s.g.acked t n →
+                 Agree (s.nodes n).log (s.g.termLog t) i ∨ Blocked N s t i
+  V          : ∀ t' c v, s.g.voted t' v = some c → (s.nodes c).role = .candidate → (s.nodes c).term = t' →
+                 ∀ t i, t < t' → OwnPos s.g t i → i ≤ s.g.acked t v →
+                   Agree (s.nodes c).log (s.g.termLog t) i ∨ Blocked N s t i
+  C1         : ∀ n, Cmt N s (s.nodes n).term ((s.nodes n).log.take ((s.nodes n).commit + 1))
+  msg_cmt_a  : ∀ t l d prev pt es c, Msg.append t l d prev pt es c ∈ s.msgs →
+                 c < (s.g.termLog t).length ∧ Cmt N s t ((s.g.termLog t).take (c + 1))
+  msg_cmt_s  : ∀ t l d k kt c pfx, Msg.snapshot t l d k kt c pfx ∈ s.msgs →
+                 c < (s.g.termLog t).length ∧ Cmt N s t ((s.g.termLog t).take (c + 1))
+
+/-- The full inductive invariant. -/
+structure Inv (N : Nat) (s : State) : Prop where
+  e : InvE N s
+  l : InvL N s
+  a : InvA s
+  s : InvS N s
+
 end PSO.Raft
